@@ -297,7 +297,16 @@ func (ex *Exec) decide(c *sym.Term) bool {
 			return r
 		}
 	}
-	return ex.branch([]*sym.Term{c, ex.c.Not(c)}, "") == 0
+	// a condition already decided on this path (hash-consed: the same term)
+	// needs no further query
+	if v, ok := ex.facts[c.ID]; ok {
+		return v
+	}
+	nc := ex.c.Not(c)
+	r := ex.branch([]*sym.Term{c, nc}, "") == 0
+	ex.facts[c.ID] = r
+	ex.facts[nc.ID] = !r
+	return r
 }
 
 // known reports whether the path condition pins t to a constant through a
